@@ -245,6 +245,7 @@ def simulate_latest(cfg: dict, root: str, schedule: typing.Optional[list] = None
             reg, project = event['reg'], event['project']
             rels = model[reg][project]
             directory = asset.Directory(registries[reg])
+            began = kernel.now
             if event['kind'] == 'publish':
                 nxt = next((v for v in VERSIONS if v not in rels), None)
                 if nxt is None:
@@ -259,8 +260,9 @@ def simulate_latest(cfg: dict, root: str, schedule: typing.Optional[list] = None
                 _commit(directory, project, release, b'state-%d' % kernel.step)
                 rels[release] += 1
                 kernel.note('committed', f'{reg}/{project}/{release}/{rels[release]}')
-            # the commit became visible somewhere inside the call: its interval is [start, now]
-            timeline.append((kernel.now, reg, project, dict(rels)))
+            # the commit became visible somewhere inside the call: its interval is [began, now] (virtual time passes
+            # inside it when the trainer is stalled half way)
+            timeline.append((kernel.now, reg, project, dict(rels), began))
         trainer_task['done'] = True
 
     def client(spec: dict):
@@ -320,6 +322,23 @@ def latest_of(rels: dict, configured: typing.Optional[str]) -> typing.Optional[l
     return None
 
 
+def scan_results(first: dict, later: dict, configured: typing.Optional[str]) -> list:
+    """A pick is a scan, not a snapshot: it lists the releases, then the generations of one release after the other from
+    the highest down, and commits may land in between (at the same virtual instant under pre-emption, or virtual
+    seconds apart when a listing is slow). What a scan that started in state `first` and finished in state `later` can
+    return: a release it listed at the start whose higher siblings were empty when it looked at them (at the earliest:
+    at the start), with the generations that release had when the scan got there."""
+    if configured is not None:
+        return [[configured, later[configured]]] if later.get(configured) else []
+    out = []
+    for release in sorted(first, key=int, reverse=True):
+        if later.get(release):
+            out.append([release, later[release]])
+        if first[release]:
+            break  # not empty at the start (and so never after): the scan stops here at the latest
+    return out
+
+
 def judge_latest(cfg: dict, result: dict) -> list[dict]:
     out = []
     if result['outcome'] != 'completed':
@@ -340,13 +359,18 @@ def judge_latest(cfg: dict, result: dict) -> list[dict]:
         # (virtual time stands still while tasks are runnable) all happens at T - so `<=`/`>=` on both ends
         lo = rec['t0'] if first else rec['t0'] - spec['refresh'] - rec['stall'] - 1e-9
         states = [e for e in timeline if e[1] == rec['reg'] and e[2] == project]
-        before = [e for e in states if e[0] < lo]
-        inside = [e for e in states if lo <= e[0] <= rec['t1'] + 1e-9]
+        before = [e for e in states if e[0] < lo]  # completed before the window: the least that must be known
+        inside = [e for e in states if e[0] >= lo and (e[4] if len(e) > 4 else e[0]) <= rec['t1'] + 1e-9]
         candidates = ([before[-1]] if before else []) + inside
         allowed = []
-        for _, _, _, rels in candidates:
+        for _, _, _, rels, *_ in candidates:
             value = latest_of(rels, configured)
             allowed.append(None if value is None else [project, *value])
+        for i, early in enumerate(candidates):  # scans that saw the registry change under them
+            for late in candidates[i + 1:]:
+                for value in scan_results(early[3], late[3], configured):
+                    if [project, *value] not in allowed:
+                        allowed.append([project, *value])
         if not candidates:
             allowed = [None]
         where = (f'client {rec["cid"]} selector {rec["selector"]} ({project}, release={configured}, refresh='
@@ -366,7 +390,12 @@ def judge_latest(cfg: dict, result: dict) -> list[dict]:
         if rec['result'] is not None:
             prev = last_seen.get((rec['cid'], key))
             if prev is not None and _order(rec['result']) < _order(prev):
-                out.append({'class': 'selection-went-back', 'detail': f'{where}: {rec["result"]} after {prev}'})
+                # not a violation: the value is inside the freshness window (checked above) and the statement asks for
+                # freshness within the refresh interval, not for monotonicity - a pick resolved just before a commit
+                # may be stored just after a client resolved the (lazy) cached instance to the newer generation, and
+                # the next refresh repairs it. Counted as a reach probe.
+                result.setdefault('went_back_within_window', 0)
+                result['went_back_within_window'] += 1
             last_seen[(rec['cid'], key)] = rec['result']
     return out
 
